@@ -1,5 +1,6 @@
 import Ovldverif.Spec.Types
 import Ovldverif.Lemmas.Basic
+import Ovldverif.Props.C12
 /-!
 # C12 — mirror symmetry of `typeorder` on the fragment where the code is symmetric
 
@@ -12,25 +13,178 @@ set_option autoImplicit false
 namespace Ovld
 open TOrd
 
-mutual
-def symFrag : Ty → Ty → Bool
-  | .gen _ a1, .gen _ a2 => !a1.isEmpty && !a2.isEmpty && symFragL a1 a2
-  | .prod ps b1, .prod qs b2 => !ps.isEmpty && !qs.isEmpty && symFragL ps qs && symFrag b1 b2
-  | .lit _ b1, .lit _ b2 => symFrag b1 b2
-  | .lit _ b1, .fdep _ _ b2 => symFrag b1 b2
-  | .fdep _ _ b1, .lit _ b2 => symFrag b1 b2
-  | .fdep _ _ b1, .fdep _ _ b2 => symFrag b1 b2
-  | t1, t2 => !(t1.effHook t2 && t2.effHook t1)
-def symFragL : List Ty → List Ty → Bool
-  | a :: as, b :: bs => symFrag a b && symFragL as bs
-  | _, _ => true
-end
+
+namespace TOrd
+
+theorem all_map_opp (p q : TOrd → Bool) (h : ∀ o, p o.opposite = q o) (os : List TOrd) :
+    (os.map opposite).all p = os.all q := by
+  induction os with
+  | nil => rfl
+  | cons a t ih => simp only [List.map_cons, List.all_cons, ih, h]
+
+theorem all_same_of_LS_MS (os : List TOrd) (h1 : os.all isLS = true) (h2 : os.all isMS = true) :
+    os.all isSame = true := by
+  rw [List.all_eq_true] at *
+  intro x hx
+  have a := h1 x hx
+  have b := h2 x hx
+  cases x <;> simp_all [isLS, isMS, isSame]
+
+/-- `merge` commutes with `opposite` on NON-EMPTY lists (`merge [] = less` is not self-dual) -/
+theorem merge_opp (os : List TOrd) (hne : os.isEmpty = false) :
+    merge (os.map opposite) = (merge os).opposite := by
+  have h1 := all_map_opp isSame isSame (by intro o; cases o <;> rfl) os
+  have h2 := all_map_opp isLS isMS (by intro o; cases o <;> rfl) os
+  have h3 := all_map_opp isMS isLS (by intro o; cases o <;> rfl) os
+  have hne' : (os.map opposite).isEmpty = false := by
+    cases os with
+    | nil => cases hne
+    | cons _ _ => rfl
+  unfold merge
+  rw [h1, h2, h3, hne, hne']
+  cases a : os.all isSame <;> cases b : os.all isLS <;> cases c : os.all isMS <;>
+    simp [opposite]
+  have := all_same_of_LS_MS os b c
+  rw [a] at this; cases this
+
+end TOrd
+
+theorem zipWithT_mirror (g : Ty → Ty → TOrd)
+    (h : ∀ a b, symFrag a b = true → g b a = (g a b).opposite) :
+    ∀ (as bs : List Ty), symFragL as bs = true →
+      zipWithT g bs as = (zipWithT g as bs).map opposite
+  | [], [] => by intro _; rfl
+  | [], _ :: _ => by intro _; rfl
+  | _ :: _, [] => by intro _; rfl
+  | a :: as, b :: bs => by
+    intro hs
+    simp only [symFragL, Bool.and_eq_true] at hs
+    simp only [zipWithT, List.map_cons, h a b hs.1, zipWithT_mirror g h as bs hs.2]
+
+theorem zipWithT_isEmpty {α : Type} (g : Ty → Ty → α) :
+    ∀ (as bs : List Ty), as.isEmpty = false → as.length = bs.length →
+      (zipWithT g as bs).isEmpty = false
+  | [], _ => by intro h; cases h
+  | _ :: _, [] => by intro _ h; cases h
+  | _ :: _, _ :: _ => by intro _ _; rfl
+
+theorem depLt_asymm (a b : Ty) (h : Ty.depLt a b = true) : Ty.depLt b a = false := by
+  cases a <;> cases b <;> simp [Ty.depLt] at h ⊢
+  intros; omega
+
+
+theorem depHook_mirror (to : Ty → Ty → TOrd) (sc : Ty → Ty → Bool) (s1 b1 s2 b2 : Ty)
+    (hb1 : s1.bound? = some b1) (hb2 : s2.bound? = some b2)
+    (hm : to b2 b1 = (to b1 b2).opposite) :
+    depHook to sc s2 b2 s1 = (depHook to sc s1 b1 s2).opposite := by
+  unfold depHook
+  simp only [hb1, hb2, hm]
+  have asym := depLt_asymm s1 s2
+  generalize to b1 b2 = o
+  cases hA : Ty.depLt s1 s2
+  · cases hB : Ty.depLt s2 s1 <;> cases o <;> rfl
+  · rw [asym hA]; cases o <;> rfl
+
+theorem hook_mirror (to : Ty → Ty → TOrd) (sc : Ty → Ty → Bool)
+    (ih : ∀ a b, symFrag a b = true → to b a = (to a b).opposite)
+    (t1 t2 : Ty) (hs : symFrag t1 t2 = true)
+    (h1 : t1.effHook t2 = true) (h2 : t2.effHook t1 = true) :
+    ∃ r, hook to sc t1 t2 = some r ∧ hook to sc t2 t1 = some r.opposite := by
+  cases t1 <;> cases t2 <;> simp [Ty.effHook] at h1 h2 <;> simp [symFrag, Ty.effHook] at hs
+  case prod.prod ps b1 qs b2 =>
+    obtain ⟨⟨⟨hp, hq⟩, hl⟩, _⟩ := hs
+    refine ⟨_, rfl, ?_⟩
+    simp only [hook]
+    by_cases hlen : ps.length = qs.length
+    · have hp' : ps.isEmpty = false := by simpa using hp
+      simp only [hlen, beq_self_eq_true, if_true]
+      rw [zipWithT_mirror to ih ps qs hl, merge_opp _ (zipWithT_isEmpty to ps qs hp' hlen)]
+    · have hlen' : ¬ qs.length = ps.length := fun e => hlen e.symm
+      simp [hlen, hlen', opposite]
+  case lit.lit k1 b1 k2 b2 =>
+    exact ⟨_, rfl, by simp only [hook]; exact congrArg some (depHook_mirror to sc _ b1 _ b2 rfl rfl (ih b1 b2 hs))⟩
+  case lit.fdep k1 b1 f2 p2 b2 =>
+    exact ⟨_, rfl, by simp only [hook]; exact congrArg some (depHook_mirror to sc _ b1 _ b2 rfl rfl (ih b1 b2 hs))⟩
+  case fdep.lit f1 p1 b1 k2 b2 =>
+    exact ⟨_, rfl, by simp only [hook]; exact congrArg some (depHook_mirror to sc _ b1 _ b2 rfl rfl (ih b1 b2 hs))⟩
+  case fdep.fdep f1 p1 b1 f2 p2 b2 =>
+    exact ⟨_, rfl, by simp only [hook]; exact congrArg some (depHook_mirror to sc _ b1 _ b2 rfl rfl (ih b1 b2 hs))⟩
+
 
 variable (H : Hier)
+
+theorem tstruct_gen_gen (to : Ty → Ty → TOrd) (sc : Ty → Ty → Bool)
+    (ih : ∀ a b, symFrag a b = true → to b a = (to a b).opposite)
+    (o1 : Nat) (a1 : List Ty) (o2 : Nat) (a2 : List Ty)
+    (hs : symFrag (.gen o1 a1) (.gen o2 a2) = true) :
+    tstruct H to sc (.gen o2 a2) (.gen o1 a1) = (tstruct H to sc (.gen o1 a1) (.gen o2 a2)).opposite := by
+  simp only [symFrag, Bool.and_eq_true, Bool.not_eq_true'] at hs
+  obtain ⟨⟨h1, h2⟩, hl⟩ := hs
+  have hr : to (.cls o2) (.cls o1) = (to (.cls o1) (.cls o2)).opposite :=
+    ih (.cls o1) (.cls o2) (by simp [symFrag, Ty.effHook])
+  simp only [tstruct, hr, h1, h2]
+  generalize to (.cls o1) (.cls o2) = r
+  cases r
+  · rfl
+  · rfl
+  · by_cases hlen : a1.length = a2.length
+    · have e1 : (a1.length != a2.length) = false := by simp [hlen]
+      have e2 : (a2.length != a1.length) = false := by simp [hlen]
+      have e3 : (same.opposite != same) = false := rfl
+      have e4 : (same != same) = false := rfl
+      simp only [e1, e2, e3, e4, Bool.not_false, Bool.and_false,
+        Bool.false_eq_true, if_false]
+      rw [zipWithT_mirror to ih a1 a2 hl, merge_opp _ (zipWithT_isEmpty to a1 a2 h1 hlen)]
+    · have e1 : (a1.length != a2.length) = true := by simp [hlen]
+      have e2 : (a2.length != a1.length) = true := by simp; exact fun e => hlen e.symm
+      have e3 : (same.opposite != same) = false := rfl
+      have e4 : (same != same) = false := rfl
+      simp only [e1, e2, e3, e4, Bool.not_false, Bool.and_false,
+        Bool.false_eq_true, if_false, if_true]
+      rfl
+  · rfl
+
+theorem tstruct_mirror (to : Ty → Ty → TOrd) (sc : Ty → Ty → Bool)
+    (ih : ∀ a b, symFrag a b = true → to b a = (to a b).opposite)
+    (t1 t2 : Ty) (hs : symFrag t1 t2 = true)
+    (h1 : t1.effHook t2 = false) (h2 : t2.effHook t1 = false) :
+    tstruct H to sc t2 t1 = (tstruct H to sc t1 t2).opposite := by
+  cases t1 <;> cases t2 <;> simp [Ty.effHook] at h1 h2 <;>
+    first
+    | exact tstruct_gen_gen H to sc ih _ _ _ _ hs
+    | exact ofSub_comm _ _
+    | rfl
+    | exact (opp_opp _).symm
+
+theorem tord_mirror : ∀ (f : Nat) (t1 t2 : Ty), symFrag t1 t2 = true →
+    tord H f t2 t1 = (tord H f t1 t2).opposite := by
+  intro f
+  induction f with
+  | zero => intro t1 t2 _; rw [tord, tord]; rfl
+  | succ f ih =>
+    intro t1 t2 hs
+    rw [tord, tord, Ty.beq_comm t2 t1]
+    by_cases e : Ty.beq t1 t2 = true
+    · simp [e, opposite]
+    · simp only [e]
+      cases h1 : t1.effHook t2 <;> cases h2 : t2.effHook t1
+      · rw [hook_none_of_not_eff _ _ t1 t2 h1, hook_none_of_not_eff _ _ t2 t1 h2]
+        exact tstruct_mirror H _ _ ih t1 t2 hs h1 h2
+      · rw [hook_none_of_not_eff _ _ t1 t2 h1]
+        obtain ⟨r, hr⟩ := hook_some_of_eff (tord H f) (subc H f) t2 t1 h2
+        simp [hr]
+      · rw [hook_none_of_not_eff _ _ t2 t1 h2]
+        obtain ⟨r, hr⟩ := hook_some_of_eff (tord H f) (subc H f) t1 t2 h1
+        simp [hr]
+      · obtain ⟨r, hr1, hr2⟩ := hook_mirror (tord H f) (subc H f) ih t1 t2 hs h1 h2
+        simp [hr1, hr2]
 
 /-- **mirror symmetry**: on the fragment, comparing in the other direction gives the mirror image -/
 theorem C12_mirror_partial (anti : H.Antisym) (t1 t2 : Ty) (h : symFrag t1 t2 = true) :
     typeorder H t2 t1 = (typeorder H t1 t2).opposite := by
-  sorry
+  have _ := anti  -- not needed: `symFrag` demands non-empty argument lists on generic/generic pairs
+  unfold typeorder
+  rw [Nat.add_comm t2.size t1.size]
+  exact tord_mirror H _ t1 t2 h
 
 end Ovld
